@@ -14,6 +14,7 @@ import (
 	"path/filepath"
 	"strings"
 	"sync/atomic"
+	"testing"
 
 	"github.com/rogpeppe/go-internal/goproxytest"
 	"github.com/rogpeppe/go-internal/gotooltest"
@@ -60,6 +61,9 @@ func mainerr() (retErr error) {
 	fContinue := flag.Bool("continue", false, "continue running the script if an error occurs")
 	fVerbose := flag.Bool("v", false, "run tests verbosely")
 	flag.Var(&envVars, "e", "pass through environment variable to script (can appear multiple times)")
+	// The [short] condition calls testing.Short, which panics unless the
+	// testing flags have been registered and parsed.
+	testing.Init()
 	flag.Parse()
 
 	files := flag.Args()
